@@ -174,7 +174,7 @@ def _stored_bool_edges(body, s):
     if src is None or src[0] not in ("local", "rv"):
         return {}
     d = t["discr"]
-    if "p" not in d or d["p"]["proj"]:
+    if "p" not in d or (d["p"]["proj"] and src[0] != "local"):
         return {}
     l = src[1] if src[0] == "local" else d["p"]["l"]
     pol = src[2] if src[0] == "local" else True
